@@ -126,9 +126,10 @@ class Prop:
                   "'%5d ' rendering of that thread's gettid(), and the assert of helper class T holds (tid_field_true, "
                   "proved from the extracted fact that Impl::Impl calls CurrentThread::tid() before it reads tidString(); "
                   "the excluded branch - six NUL bytes and a failing assert - is proved as tid_field_without_call). "
-                  "The time field is the first 17 characters of the '%4d%02d%02d %02d:%02d:%02d' text of the logged second "
-                  "in the configured zone unless the zone was changed inside the thread's cached second (line_time_partial; "
-                  "F18, known finding, negation witness line_time_fails_witness); formatSI / formatIEC stay within 5 / 6 "
+                  "After any history of log statements and Logger::setTimeZone calls the time field of a line is the first 17 "
+                  "characters of the '%4d%02d%02d %02d:%02d:%02d' text of the logged second in the zone configured at that "
+                  "moment - also when the zone was changed inside the second the thread has cached (line_time, by an "
+                  "invariant over the per-thread cache keyed by second and zone generation; F18 repaired); formatSI / formatIEC stay within 5 / 6 "
                   "characters for every n in [0, 2^63) on an exact model of int64->double rounding, the correctly rounded "
                   "division and %.Nf (formatSI_width, formatIEC_width). NOT proved in Lean (tested by the differential run "
                   "and the oracle only): the calendar arithmetic behind the time text (C20) and the 'within rounding "
@@ -148,7 +149,7 @@ class Prop:
     rule = ("LogStream: insertion sequences over all operator<< overloads with boundary-dense values (type limits, every "
             "power of ten and two +-2, random) incl. sequences that run past the 4000-byte buffer and the 4000000-byte "
             "FixedBuffer; Logger: every constructor and LOG_* macro x level x configured level x source path x zone x "
-            "thread kind (main / muduo::Thread / forked child / pthread_create'd thread whose first muduo call is the log "
+            "zone changes inside and outside the second the thread has cached x thread kind (main / muduo::Thread / forked child / pthread_create'd thread whose first muduo call is the log "
             "statement / pthread_create'd thread after CurrentThread::tid()) under a scripted and the real clock; a "
             "dedicated thread-kind section (every kind, constructors and macros) runs in a build with asserts AND an "
             "NDEBUG build in both tiers; formatSI/formatIEC: "
@@ -169,6 +170,8 @@ class Prop:
     assumptions = [
         "streamed integers / pointers are values of a type of at most 64 bits; snprintf(\"%.12g\") reports fewer than "
         "kMaxNumericSize characters (tested, not proved)",
+        "Logger::setTimeZone is called fewer than 2^31 times (the generation counter is an int) and not concurrently "
+        "with a log statement (g_logTimeZone itself is a plain object)",
         "the clock reads at least one second past the epoch and the zone-shifted instant lies in years 1970..9999 "
         "(a thread's very first line during second 0 would hit the zero-initialised cache)",
         "a fixed-offset TimeZone (or none) is configured; zone-file zones belong to C20",
@@ -176,11 +179,7 @@ class Prop:
         "gettid() returns a positive pid_t (0 < tid < 2^31); a thread's tid cache, when filled, was filled on that thread "
         "(or was reset by the atfork handler): nobody writes CurrentThread::t_cachedTid by hand",
     ]
-    partial_theorems = [
-        {"theorem": "MuduoVerif.C17.line_time_partial",
-         "weakened_by": "no Logger::setTimeZone since the thread's cached second was formatted (or the second differs)",
-         "finding": "F18", "negation_witness": "MuduoVerif.C17.line_time_fails_witness"},
-    ]
+    partial_theorems = []
 
     F18_SIG = "time-stale-after-setTimeZone"
 
@@ -575,7 +574,7 @@ class Prop:
         # around the capacity of the line buffer: the tail of the line is left out piece by piece
         return "g:%d:%d" % (rng.randrange(1 << 30), KSMALL - rng.randrange(20, 140))
 
-    def logger_section(self, rng, allow_f18):
+    def logger_section(self, rng):
         lines = []
         zone = rng.choice([None, None, 28800, -18000, 3600, 0, 86400, -86400, 19800, rng.randrange(-86400, 86401)])
         level = rng.randrange(0, 6)
@@ -589,12 +588,10 @@ class Prop:
                 lines.append("setlevel %d" % rng.randrange(0, 6))
                 continue
             if r < 0.14:
-                # a zone change is followed by a jump of the clock to another second unless the known finding is wanted
+                # a zone change, very often inside the second the thread has cached (F18): rand_clock stays close
                 zone = rng.choice([None, 28800, -3600, rng.randrange(-86400, 86401)])
                 lines.append("setzone %s" % ("none" if zone is None else zone))
-                if not allow_f18:
-                    base[0] += 1000000 * rng.randrange(1, 100)
-                    lines.append("line main c2 2 %d 0 lit:0:%s 1 - msg h:" % (self.clamp(base[0], zone), LITS[0].encode().hex()))
+                base[0] = self.clamp(base[0], zone)
                 continue
             clk = "now" if rng.random() < 0.08 and zone in (None, 0, 28800, 3600) else str(self.rand_clock(rng, zone, base))
             if r < 0.55:
@@ -842,7 +839,7 @@ class Prop:
             nlog = (1200 if thorough else 200) // (1 if fi == 0 else 3)
             lines, secs = [], []
             for i in range(nlog):
-                s = self.logger_section(ctx.rng, allow_f18=False)
+                s = self.logger_section(ctx.rng)
                 secs.append((len(lines), len(lines) + len(s)))
                 lines += s
             self.run_lines(ctx, exe, lines, "logger-lines", secs)
